@@ -19,7 +19,9 @@ use std::time::Duration;
 #[derive(Clone, Debug)]
 pub struct Cfg { pub w: u16, pub h: u16, pub lay: u32, pub name: String, pub dom: String, pub user: String, pub pw: String, pub hash: bool, pub ra: bool, pub blank: bool, pub auto: bool, pub nla: bool }
 #[derive(Clone, Debug)]
-pub struct SrvCfg { pub sel: u32, pub id: usize, pub uid: u16, pub version: u32, pub license_new: bool, pub share: u32, pub caps: Vec<Vec<u8>>, pub source: Vec<u8>, pub chal_flags: u32, pub inputs: Vec<String> }
+pub struct SrvCfg { pub sel: u32, pub id: usize, pub uid: u16, pub version: u32, pub license_new: bool, pub share: u32, pub caps: Vec<Vec<u8>>, pub source: Vec<u8>, pub chal_flags: u32, pub inputs: Vec<String>, pub script: Vec<Act> }
+#[derive(Clone, Debug)]
+pub enum Act { Send(Vec<u8>), Pause(u64), CloseNotify, Close }
 
 /// records every raw byte the server reads from the socket (pre-TLS bytes and TLS records)
 pub struct Tee { pub inner: UnixStream, pub log: Arc<Mutex<Vec<u8>>> }
@@ -39,7 +41,7 @@ pub fn read_tpkt<S: Read>(s: &mut S) -> Option<Vec<u8>> {
     v.extend(body); Some(v)
 }
 
-fn serve(raw: UnixStream, s: SrvCfg, acc_key: Vec<u8>, rawlog: Arc<Mutex<Vec<u8>>>) -> ConnLog {
+pub fn serve(raw: UnixStream, s: SrvCfg, acc_key: Vec<u8>, rawlog: Arc<Mutex<Vec<u8>>>) -> ConnLog {
     let mut log = ConnLog::default();
     raw.set_read_timeout(Some(Duration::from_secs(3))).ok();
     let mut tee = Tee { inner: raw, log: rawlog };
@@ -100,6 +102,18 @@ fn serve(raw: UnixStream, s: SrvCfg, acc_key: Vec<u8>, rawlog: Arc<Mutex<Vec<u8>
                                 log.srv_msgs.push(fr[7..].to_vec());
                                 ans.extend(fr);
                             }
+                            if !s.script.is_empty() {
+                                if !write_all(&mut tls, &ans) { break; }
+                                ans.clear();
+                                for act in &s.script {
+                                    match act {
+                                        Act::Send(b) => { if !write_all(&mut tls, b) { break; } }
+                                        Act::Pause(ms) => std::thread::sleep(Duration::from_millis(*ms)),
+                                        Act::CloseNotify => { let _ = tls.shutdown(); }
+                                        Act::Close => { return log; }
+                                    }
+                                }
+                            }
                         }
                     }
                 }
@@ -111,7 +125,7 @@ fn serve(raw: UnixStream, s: SrvCfg, acc_key: Vec<u8>, rawlog: Arc<Mutex<Vec<u8>
     log
 }
 
-fn layout_of(v: u32) -> KeyboardLayout { if v == 0x40c { KeyboardLayout::French } else if v == 0x407 { KeyboardLayout::German } else { KeyboardLayout::US } }
+pub fn layout_of(v: u32) -> KeyboardLayout { if v == 0x40c { KeyboardLayout::French } else if v == 0x407 { KeyboardLayout::German } else { KeyboardLayout::US } }
 
 fn parse_event(s: &str) -> Option<RdpEvent> {
     let c = s.chars().next()?;
@@ -202,7 +216,7 @@ pub fn run_case(toks: &[&str], em: &mut Emitter) {
     let c = Cfg { w: get("w").parse().unwrap_or(800), h: get("h").parse().unwrap_or(600), lay: get("lay").parse().unwrap_or(0x409), name: s8("name"), dom: s8("dom8"), user: s8("usr8"), pw: s8("pwd8"), hash: b("hash"), ra: b("ra"), blank: b("blank"), auto: b("auto"), nla: b("nla") };
     let caps: Vec<Vec<u8>> = get("caps").split(',').filter(|x| !x.is_empty()).map(|x| unhex(x)).collect();
     let s = SrvCfg { sel: get("ssel").parse().unwrap_or(0), id: get("id").parse().unwrap_or(1), uid: get("uid").parse().unwrap_or(1004), version: get("ver").parse().unwrap_or(0x80004), license_new: b("licnew"), share: get("share").parse().unwrap_or(0x103ea),
-        caps, source: unhex(&get("source")), chal_flags: u32::from_str_radix(&get("cflags"), 16).unwrap_or(0), inputs: get("inputs").split(',').filter(|x| !x.is_empty()).map(|x| x.to_string()).collect() };
+        caps, source: unhex(&get("source")), chal_flags: u32::from_str_radix(&get("cflags"), 16).unwrap_or(0), inputs: get("inputs").split(',').filter(|x| !x.is_empty()).map(|x| x.to_string()).collect(), script: vec![] };
     let _ = emit(em, &c, &s);
 }
 
@@ -253,7 +267,7 @@ pub fn generate(prop: &str, thorough: bool, seed: u64, part: (usize, usize), em:
                 nla: mode & 1 != 0, ra: mode & 2 != 0, blank: mode & 4 != 0, auto: mode & 8 != 0, hash: mode & 16 != 0 };
             let mut flags: u32 = 0x40000000 | 0x20000000 | 0x00800000 | 0x00080000 | 0x00008000 | 0x00000200 | 0x00000020 | 0x00000010 | 0x00000004;
             if r.chance(1, 2) { flags |= 0x02000000; } if r.chance(3, 4) { flags |= 1; }
-            let s = SrvCfg { sel: 0, id: 1 + (mode as usize % 2), uid: 1004, version: 0x80004, license_new: false, share: 0x103ea, caps: default_caps(), source: b"RDP\0".to_vec(), chal_flags: flags, inputs: vec!["P10:20:1:1".into(), "K30:1".into()] };
+            let s = SrvCfg { sel: 0, id: 1 + (mode as usize % 2), uid: 1004, version: 0x80004, license_new: false, share: 0x103ea, caps: default_caps(), source: b"RDP\0".to_vec(), chal_flags: flags, inputs: vec!["P10:20:1:1".into(), "K30:1".into()], script: vec![] };
             let run = emit(em, &c, &s);
             if prop == "C04" { emit_strict(em, &run, &mut seen); }
         }
@@ -273,7 +287,7 @@ pub fn generate(prop: &str, thorough: bool, seed: u64, part: (usize, usize), em:
         let inputs: Vec<String> = (0..ninp).map(|_| if r.chance(1, 2) { format!("P{}:{}:{}:{}", r.below(65536), r.below(65536), r.below(4), r.below(2)) } else { format!("K{}:{}", r.below(256), r.below(2)) }).collect();
         let nsrc = r.below(6) as usize;
         let s = SrvCfg { sel: if c.nla && r.chance(1, 3) { 1 } else { 0 }, id: 1 + i % 2, uid, version: *r.pick(&[0x80004u32, 0x80001, 0x80005, 0x80010]), license_new: r.chance(1, 2), share: r.next() as u32,
-            caps, source: r.bytes(nsrc), chal_flags: 0x62898235 | if r.chance(1, 2) { 0x02000000 } else { 0 }, inputs };
+            caps, source: r.bytes(nsrc), chal_flags: 0x62898235 | if r.chance(1, 2) { 0x02000000 } else { 0 }, inputs, script: vec![] };
         let run = emit(em, &c, &s);
         if prop == "C04" { emit_strict(em, &run, &mut seen); }
     }
